@@ -154,6 +154,12 @@ func (r *chainRun) doInvoke(st *CStep, n *Node, failed *bool) *Violation {
 	}
 	r.txs[string(tx.Txid)] = CloneTx(tx)
 	r.rc.St.Probes["invoke-admitted"]++
+	if len(resp.UtxoInputs) > 0 {
+		r.rc.St.Probes["invoke-with-contract-transfer"]++
+		if len(resp.UtxoInputs) > 1 {
+			r.rc.St.Probes["invoke-with-several-contract-inputs"]++
+		}
+	}
 	if failedCall {
 		// a failed call (status >= 400) must change nothing
 		r.rc.St.Probes["failed-call-admitted"]++
